@@ -41,11 +41,16 @@ def make_region(m, name, a):
         mem = a.ravel()
     if dt == object:
         vals = []
-        for v in mem:
-            v = _unwrap(v)
-            re = getattr(v, 're', None)
-            if re is not None and not isinstance(v, (complex, np.complexfloating, float, int, Fraction)):
-                vals.append(_unwrap(v.re)); vals.append(_unwrap(v.im))      # symbolic complex
+        elems = [_unwrap(v) for v in mem]
+        is_c = getattr(a, 'ckind', None) == 'c' or any(isinstance(v, (complex, np.complexfloating)) or (hasattr(v, 're') and hasattr(v, 'im')) for v in elems)
+        for v in elems:
+            if is_c:
+                if isinstance(v, (complex, np.complexfloating)):
+                    vals.append(float(v.real)); vals.append(float(v.imag))
+                elif hasattr(v, 're') and hasattr(v, 'im'):
+                    vals.append(_unwrap(v.re)); vals.append(_unwrap(v.im))      # symbolic complex
+                else:
+                    vals.append(v); vals.append(0.0)
             else:
                 vals.append(v)
         return m.array(name, vals, 'double'), a.shape, 'double'
